@@ -78,7 +78,7 @@ def build_finite(spec, SI):
             th = psi.get_theta(i, 2)
             th = npc.tensordot(op, th, axes=[['p0*', 'p1*'], ['p0', 'p1']])
             th = th.itranspose(['vL', 'p0', 'p1', 'vR']).combine_legs([['vL', 'p0'], ['p1', 'vR']], qconj=[+1, -1])
-            psi.set_svd_theta(i, th)
+            psi.set_svd_theta(i, th, trunc_par={'chi_max': 64, 'svd_min': 1.e-10})
         return psi
     if m == 'singlets':
         up, down = D['up_down']
@@ -151,6 +151,7 @@ def observe(psi, A, key, want):
     for i, B in enumerate(psi._B):
         A['%s_B%d' % (key, i)] = B.to_ndarray() if B.get_leg_labels() == ['vL', 'p', 'vR'] else \
             B.transpose(['vL', 'p', 'vR']).to_ndarray()
+    o['legs_sorted'] = bool(all(B.get_leg('vL').is_sorted() and B.get_leg('vR').is_sorted() for B in psi._B))
     o['S_none'] = [i for i, s in enumerate(psi._S) if s is None]
     for i, s in enumerate(psi._S):
         if s is not None:
@@ -221,7 +222,7 @@ def do_op(psi, op, A, key, SI):
         psi.set_B(op['i'], B * c, f)
     elif t == 'set_svd_theta':
         th = psi.get_theta(op['i'], 2).combine_legs([['vL', 'p0'], ['p1', 'vR']], qconj=[+1, -1])
-        psi.set_svd_theta(op['i'], th)
+        psi.set_svd_theta(op['i'], th, trunc_par={'chi_max': 64, 'svd_min': 1.e-10})
     elif t == 'apply_local_op':
         i = op['i']
         kw = {'unitary': op.get('unitary'), 'renormalize': op.get('renormalize', False), 'understood_infinite': True}
@@ -299,6 +300,14 @@ def do_op(psi, op, A, key, SI):
 
 
 def run_case(case, A, key, SI):
+    import time
+    t0 = time.time()
+    res = _run_case(case, A, key, SI)
+    res['t'] = time.time() - t0
+    return res
+
+
+def _run_case(case, A, key, SI):
     res = {'obs': [], 'extra': []}
     try:
         psi = build(case['state'], SI)
@@ -311,7 +320,7 @@ def run_case(case, A, key, SI):
         try:
             psi, ex = do_op(psi, op, A, '%s_%d' % (key, k + 1), SI)
         except Exception as e:
-            res['op_error'] = {'step': k, 'type': type(e).__name__, 'msg': str(e)[:300], 'tb': traceback.format_exc()[-800:]}
+            res['op_error'] = {'step': k, 'type': type(e).__name__, 'msg': str(e)[:300] + ' ... ' + str(e)[-200:], 'tb': traceback.format_exc()[-800:]}
             break
         res['extra'].append(ex)
         w = dict(want)
